@@ -22,7 +22,7 @@ ASSUMPTIONS = [
   "unassigned registers hold (vf/ref/rtl_eval.py:tick)",
   "ff orders are imposed by overwriting top._sched.schedule_ff before PrepareSimPass (property anchor observe_at)",
 ]
-QUICK_S = 80
+QUICK_S = 240
 THOROUGH_S = 1200
 
 
